@@ -126,6 +126,76 @@ def reloc(ctx):
     return res
 
 
+LINKS = ("left_sibling", "right_sibling", "color")
+
+
+def moveall(ctx):
+    """R-MOVEALL: wherever an entry's content is carried from one slot to another (the copy R-RELOC reports),
+    the whole object travels: every field except the sibling links / colour comes from the same source entry."""
+    res = RuleResult("R-MOVEALL", "an entry assembled from an existing entry takes every payload field (name, type, child, CLSID, state bits, times, start sector, length) from that same entry; only the sibling links and the colour may be replaced")
+    tbl = ctx.table("reloc")
+    accessors = tbl.get("entry_accessors", [])
+    n = 0
+    for f in ctx.fx.fns.values():
+        if f.path.startswith("internal::direntry::"):
+            continue
+        pr = None
+        # (a) struct literals / struct-update expressions
+        for bb, blk in enumerate(f.blocks):
+            if blk["cleanup"]:
+                continue
+            for i, st in enumerate(blk["stmts"]):
+                if st["s"] == "assign" and st["rv"]["r"] == "aggregate" and st["rv"].get("agg") == "adt" and st["rv"]["adt"].endswith("direntry::DirEntry"):
+                    pr = pr or Prov(f)
+                    srcs = {}
+                    for o, fname in zip(st["rv"]["ops"], st["rv"]["fields"]):
+                        if fname in LINKS:
+                            continue
+                        p_ = pr.operand(o)
+                        m = re.match(r"^(?:Clone::clone\()?(.*(?:dir_entry(?:_mut)?\(.*\)|dir_entries.*))\.(\w+)\)?$", p_)
+                        srcs[fname] = (m.group(1), m.group(2)) if m else (None, p_)
+                    from_entry = {b for b, _ in srcs.values() if b}
+                    if not from_entry:
+                        continue
+                    n += 1
+                    main = max(from_entry, key=lambda b: sum(1 for x in srcs.values() if x[0] == b))
+                    wrong = sorted(fn_ for fn_, (b, fld) in srcs.items() if b != main or fld != fn_)
+                    if wrong:
+                        res.fail(Finding("R-MOVEALL", "R-MOVEALL/%s/partial-move" % f.path,
+                                         "an entry built from %s takes %s from elsewhere (%s): the moved object loses its own %s" % (main[-60:], ", ".join(wrong), (srcs[wrong[0]][0] or srcs[wrong[0]][1])[-60:], "/".join(wrong)), f, st["span"]))
+                    else:
+                        res.ok({"function": f.path, "source": main[-60:], "fields": len(srcs)}, nontrivial=True)
+        # (b) clone-and-patch: field stores on the local that is then stored whole into a slot
+        v = view(ctx, f)
+        for bb, c in v.calls.items():
+            if c.name not in accessors:
+                continue
+            refs = forward_taint(f, {c.term["dest"]["local"]})
+            for b2, blk in enumerate(f.blocks):
+                if blk["cleanup"]:
+                    continue
+                for i, st in enumerate(blk["stmts"]):
+                    if st["s"] == "assign" and st["place"]["local"] in refs and [e["p"] for e in st["place"]["proj"]] == ["deref"] and st["rv"]["r"] == "use" and st["rv"]["op"]["k"] in ("copy", "move") and not st["rv"]["op"]["place"]["proj"]:
+                        src = st["rv"]["op"]["place"]["local"]
+                        pr = pr or Prov(f)
+                        val = pr._def((b2, i, st), 0, ())
+                        if any(val.startswith(fc) for fc in tbl.get("fresh_constructors", [])):
+                            continue
+                        n += 1
+                        patched = set()
+                        for blk3 in f.blocks:
+                            for st3 in blk3["stmts"]:
+                                if st3["s"] == "assign" and st3["place"]["local"] == src and st3["place"]["proj"] and st3["place"]["proj"][0]["p"] == "field":
+                                    patched.add(st3["place"]["proj"][0]["name"])
+                        bad = sorted(patched - set(LINKS))
+                        if bad:
+                            res.fail(Finding("R-MOVEALL", "R-MOVEALL/%s/payload-patched-in-move" % f.path, "the entry being moved into another slot has its %s overwritten on the way: the moved object loses its own %s" % (", ".join(bad), "/".join(bad)), f, st["span"]))
+                        else:
+                            res.ok({"function": f.path, "moved": val[:60], "patched": sorted(patched)}, nontrivial=True)
+    res.floor("entry moves", n, ctx.table("floors").get("moveall_sites", 0))
+    return res
+
+
 def hstore(ctx):
     res = RuleResult("R-HSTORE", "operations through a stream handle write only their own entry's start sector and length (plus the root entry's, for mini-stream bookkeeping)")
     tbl = ctx.table("hstore")
